@@ -182,6 +182,21 @@ CLAIMED["C15"] = ("model_checking",
     "TLA+ reference operations + TLC-enumerated input space; real string/view run on every case; observations validated by TLC",
     "Str", "5 C15")
 
+CLAIMED["C18"] = ("model_checking",
+    "BitsetOps.tla gives std::bitset's meaning on sets of positions for any N; Bitset.tla's closed graph of two "
+    "bitsets for N in {1,2,3} (construction from every bit pattern incl. bits at and beyond N, set/reset/flip, bit "
+    "references incl. ~ref and ref = ref, &= |= ^= ~, shifts 0..N+2) is replayed on frg::bitset, and random operation "
+    "sequences run for 21 values of N up to 320 with positions and shift amounts at word boundaries and beyond N; "
+    "BitsTrace.tla compares the set bits, count/any/all/none/==, the raw tail (no bit at or beyond N) after every "
+    "operation; each bitset lives in an exact-size heap block under ASan. array (indexing, front/back, iteration, ==, "
+    "array_concat, get<I>) and insertion_sort (every array over {1,2,3} up to length 6, three comparators: "
+    "permutation and no earlier element comparing before a later one) are checked against sequences. The PRNG "
+    "clause is NOT decided by the specification: it is an auxiliary differential against std::mt19937 and the "
+    "published PCG recurrence, reported separately in the evidence.",
+    "bounds: N in {1,2,3} exhaustively, 21 values of N to 320 sampled; PRNG clause outside the TLA+ claim (numeric stream, 64-bit arithmetic; see DESIGN.md section 7)",
+    "TLA+ reference set semantics + TLC closed graph for small N; transitions and random sequences replayed on frg::bitset for many N; observations validated by TLC",
+    "Bits", "5 C18")
+
 NOT_YET = "check not built yet in this round (see DESIGN.md build order); not claimed until its TLA+ spec and conformance harness exist"
 
 checks, na = [], []
